@@ -2,10 +2,10 @@ package engine
 
 import (
 	"fmt"
-	"regexp"
 	"go/types"
 	"math"
 	"math/bits"
+	"regexp"
 	"sort"
 	"strconv"
 	"strings"
@@ -113,8 +113,8 @@ func (g *gatherer) addNode(s *State, n *DocNode, depth int) {
 type modelEnv struct {
 	s      *State
 	m      map[string]ModelVal
-	numSp  map[int64]string  // number id -> spelling
-	usedSp map[string]int64  // spelling -> id
+	numSp  map[int64]string // number id -> spelling
+	usedSp map[string]int64 // spelling -> id
 	synth  map[int64]string
 }
 
